@@ -37,15 +37,15 @@ func VerifH_SYS_C09() {
 		go func() {
 			verifPause()
 			stopCalled = true
+			verifLock()
+			dialsAtStop = b.dials
+			verifUnlock()
 			verifEvent("app:stop")
 			if stopKind == 1 {
 				_ = cli.Disconnect(context.Background())
 			} else {
 				cancel()
 			}
-			verifLock()
-			dialsAtStop = b.dials
-			verifUnlock()
 			stopped = true
 			verifEvent("app:stopped")
 		}()
